@@ -86,9 +86,16 @@ func runProto(segs [][]byte) (calls []pcall, errored bool, ok bool) {
 	p.Start()
 	m.Start()
 	defer func() {
+		// the muxer first: its read loop may sit in a send to the (full) receive channel holding the
+		// channel's mutex, and Protocol.Stop (UnregisterProtocol) waits for that mutex
 		cl.Close()
-		p.Stop()
 		m.Stop()
+		stopped := make(chan struct{})
+		go func() { p.Stop(); close(stopped) }()
+		select {
+		case <-stopped:
+		case <-time.After(5 * time.Second):
+		}
 	}()
 	write := func(payload []byte) error {
 		buf := make([]byte, 8+len(payload))
@@ -236,6 +243,19 @@ func (s *scanner) protos(n int) {
 	name := "protocol.readLoop"
 	for i := 0; i < n; i++ {
 		segs := s.protoStream()
+		var whole []byte
+		for _, x := range segs {
+			whole = append(whole, x...)
+		}
+		for k := 0; k < protoFlush; k++ {
+			whole = append(whole, flushSeg...)
+		}
+		if libLimit(whole) {
+			s.c.Res.Count("", false, "scan:skipped-library-rule")
+			continue
+		}
+		// a panic inside the protocol's own goroutine cannot be recovered: leave the input behind
+		s.c.Begin(sreplay{name, vh.Hex(whole), fmt.Sprint(len(segs)), "crash"})
 		calls, errored, ok := runProto(segs)
 		if !ok {
 			s.c.Res.Count("", false, "scan:proto-sync-failed")
@@ -261,4 +281,82 @@ func (s *scanner) protos(n int) {
 		s.add(name, flat, fmt.Sprint(len(segs)), fmt.Sprintf("%d messages, error %v", len(calls), errored),
 			fmt.Sprintf("(CProto %s %s %s %s)", vh.List(sl), vh.Nat(1+len(segs)), vh.List(ml), vh.Bool(errored)))
 	}
+}
+
+// libLimit reports whether a sequential well-formedness scan of b (item after
+// item, as the read loop consumes the buffer) meets one of the library's
+// resource rules before it runs out of data or meets malformed input: an
+// array / map header above MaxArrayElements / MaxMapPairs (10^7) or a string
+// length that overflows int.  The model's stand-in for the library (the Lib
+// parser) answers "need more data" there, the library answers with an error;
+// such streams are left out of the correspondence (they are fuzzed in part b).
+func libLimit(b []byte) bool {
+	hit := false
+	var item func(p, depth int) int // returns the next position, or -1 (out of data / malformed / limit)
+	item = func(p, depth int) int {
+		if p >= len(b) || depth > 200 {
+			if depth > 200 {
+				hit = true
+			}
+			return -1
+		}
+		mt, ai := b[p]>>5, b[p]&31
+		if ai == 31 {
+			if mt == 0 || mt == 1 || mt == 6 || mt == 7 {
+				return -1
+			}
+			q := p + 1
+			for {
+				if q >= len(b) {
+					return -1
+				}
+				if b[q] == 0xff {
+					return q + 1
+				}
+				if q = item(q, depth+1); q < 0 {
+					return -1
+				}
+			}
+		}
+		n := argLen(ai)
+		if n < 0 || p+1+n > len(b) {
+			return -1
+		}
+		v := argVal(b[p+1:], n, ai)
+		q := p + 1 + n
+		switch mt {
+		case 0, 1, 7:
+			return q
+		case 2, 3:
+			if v >= 1<<62 {
+				hit = true
+				return -1
+			}
+			if v > uint64(len(b)-q) {
+				return -1
+			}
+			return q + int(v)
+		case 4, 5:
+			if v > 10_000_000 {
+				hit = true
+				return -1
+			}
+			cnt := v
+			if mt == 5 {
+				cnt *= 2
+			}
+			for i := uint64(0); i < cnt; i++ {
+				if q = item(q, depth+1); q < 0 {
+					return -1
+				}
+			}
+			return q
+		default:
+			return item(q, depth+1)
+		}
+	}
+	for p := 0; p >= 0 && p < len(b); {
+		p = item(p, 0)
+	}
+	return hit
 }
